@@ -35,6 +35,7 @@ package textwire
 //@   modifies nothing
 
 //@ func EvaluateFile
+//@   call EvaluateString#0: assert file-equals-its-content: arg0 == content && arg1 == data
 //@   ensures result1 != nil ==> result0 == ""
 //@   modifies nothing
 
@@ -47,8 +48,11 @@ package textwire
 //@ func nameFromPath
 //@   modifies nothing
 
+// C17: the built-in page is the embedded template rendered with exactly these four values
 //@ func errorPage
 //@   requires failErr != nil
+//@   call EvaluateString#0: assert embedded-page-with-debug-flag: arg0 == defaultErrorPage && arg1["debugMode"] == iface(userConfig.DebugMode)
+//@        && arg1["message"] == iface(failErr.message) && arg1["path"] == iface(failErr.filepath) && arg1["line"] == iface(failErr.line)
 //@   ensures result1 != nil ==> result0 == ""
 //@   modifies nothing
 
@@ -56,11 +60,13 @@ package textwire
 
 //@ func (t *Template) String
 //@   requires TplInv(t)
+//@   goal unknown-name-is-not-found: !has(t.programs, filename) ==> result1 != nil
 //@   ensures result1 != nil ==> result0 == ""
 //@   modifies nothing
 
 //@ func (t *Template) responseErrorPage
 //@   requires TplInv(t)
+//@   call String#0: assert custom-page-without-data: arg1 == userConfig.ErrorPagePath && refof(arg2) == 0
 //@   modifies nothing
 
 // Response writes the page, or exactly one error page, and reports the failure
@@ -119,6 +125,7 @@ package textwire
 //@   modifies prog.Statements, prog.UseStmt.Program, anyfield(ast.ReserveStmt.Insert)
 
 //@ func applyComponentToProgram
+//@   call New#0: assert unknown-component-names-the-use-and-the-page: arg0 == comp.Token.Pos.EndLine + 1 && arg1 == progFilePath
 //@   requires prog != nil && forall(i, 0, len(prog.Components), prog.Components[i].Block == nil)
 //@   requires forall(i, 0, len(prog.Components), forall(j, 0, len(prog.Components), i != j ==> prog.Components[i] != prog.Components[j]))
 //@   goal independent: result == nil ==> forall(i, 0, len(prog.Components), forall(j, 0, len(prog.Components), i != j && prog.Components[i].Block != nil ==> prog.Components[i].Block != prog.Components[j].Block))
